@@ -75,6 +75,7 @@ Print Assumptions C10_tc_complete_cmp.
 Theorem C10_tc_complete_ifexp chk E c a b rc ra rb :
   tc chk E c = Some rc -> tc chk E a = Some ra -> tc chk E b = Some rb ->
   aex (fst ra) = true -> aex (fst rb) = true -> aw (fst ra) <> aw (fst rb) ->
+  abool (fst ra) || abool (fst rb) = false ->      (* neither branch is a bare comparison result (rdt.Bool) *)
   tc chk E (EIf c a b) = None.
 Proof. exact (tc_complete_ifexp chk E c a b rc ra rb). Qed.
 Print Assumptions C10_tc_complete_ifexp.
